@@ -157,8 +157,23 @@ def enumerate_pairs():
                                       {'tweens': tw, 'scn': scn(0, [b], [[3, 3, 0], [12, 3, 0], [16, 1, 0]])})}
 
 
+_INJ_SITES = {}
+
+
 def enumerate_scopes():
-    return [{'t': 'scope', 'name': n, 'site': s} for n in SC.SCOPES for s in SC.SITES[n]]
+    """hand-written failure sites + one case per statement with an opaque call that the healthy run of the scope
+    executes inside a translated function (derived from the translation, see scopes.injection_sites)"""
+    out = [{'t': 'scope', 'name': n, 'site': s} for n in SC.SCOPES for s in SC.SITES[n]]
+    for n in SC.SCOPES:
+        for base in SC.SITES[n]:
+            if (n, base) not in _INJ_SITES:
+                try:
+                    _INJ_SITES[(n, base)] = SC.injection_sites(n, base)
+                except Exception:
+                    _INJ_SITES[(n, base)] = []
+            suffix = '' if base == 'none' else '@' + base
+            out += [{'t': 'scope', 'name': n, 'site': 'inj:%d%s' % (k, suffix)} for k, _lab in _INJ_SITES[(n, base)]]
+    return out
 
 
 def rand_scn(rng, depth):
@@ -227,7 +242,14 @@ def _valid_scn(s, depth):
 def valid(case):
     try:
         if case.get('t') == 'scope':
-            return case['name'] in SC.SCOPES and case['site'] in SC.SITES[case['name']]
+            if case['name'] not in SC.SCOPES:
+                return False
+            if case['site'] in SC.SITES[case['name']]:
+                return True
+            if not case['site'].startswith('inj:'):
+                return False
+            k, _, base = case['site'][4:].partition('@')
+            return k.isdigit() and int(k) < 2000 and (base == '' or base in SC.SITES[case['name']])
         if case.get('t') == 'soak':
             return case['threads'] == 16 and 0 < case['per_thread'] <= 2000
         return case.get('t') == 'req' and case['excview'] in range(8) and _valid_scn(case['scn'], 0)
@@ -429,7 +451,9 @@ def kinds(case, obs):
     if not isinstance(obs, list) or (obs and obs[0] == 'HARNESS-EXC'):
         return ['harness-exc']
     if case['t'] == 'scope':
-        return ['scope:%s' % case['name'], 'scope-exit:%s' % ('raise' if obs[0] else 'return')]
+        return ['scope:%s' % case['name'], 'scope-exit:%s' % ('raise' if obs[0] else 'return'),
+                'scope-path:%s:%s' % (case['name'], ''.join(str(x) for x in obs[:3])),
+                'scope-site:%s' % ('injected-at-opaque-call' if case['site'].startswith('inj:') else 'hand-written')]
     if case['t'] == 'soak':
         return ['soak:%d-threads-x-%d-requests mismatches=%s stray-frames=%s threads-done=%s'
                 % (case['threads'], case['per_thread'], obs[0], obs[1], obs[2])]
@@ -471,6 +495,16 @@ def explain(item):
     c = item['case']
     if c.get('t') == 'soak':
         return 'soak: [observations differing from the single-threaded run, threads ending with a stray frame, threads done]'
+    if c.get('t') == 'scope' and c['site'].startswith('inj:'):
+        try:
+            k, _, base = c['site'][4:].partition('@')
+            lab = dict(SC.injection_sites(c['name'], base or 'none')).get(int(k), '?')
+        except Exception:
+            lab = '?'
+        return ('scope %s, healthy scenario, with an exception injected (interpreter trace hook) at executed statement #%s '
+                'with an opaque call (base scenario after @, healthy if none): %s (function:line<translated callers); observed [exit 0=return/1=raise, frames '
+                "popped from the caller's stack, frames left pushed, inner moment] = %r"
+                % (c['name'], c['site'][4:], lab, item['impl']))
     if c.get('t') == 'scope':
         return ('scope %s with a failure injected at %s: observed [exit 0=return/1=raise, frames popped from the '
                 "caller's stack, frames left pushed] = %r" % (c['name'], c['site'], item['impl']))
